@@ -2,6 +2,7 @@ import Driver.Util
 import NutsModel.C03.Kid
 import NutsModel.C03.KeyStore
 import NutsModel.C03.Jws
+import NutsModel.C03.Api
 import NutsModel.Facts.C03
 open Lean Nuts.Drv Nuts.C03 Nuts
 
@@ -89,6 +90,30 @@ def showHdr (r : Except JErr Headers) : String :=
     let names := sortStrs ((out.map (·.1)).eraseDups)
     s!"ok kid={kid} jwk={jwk} secret={secret} names=[{String.intercalate "," names}]"
 
+
+/-! REST wrapper (deepening round) -/
+
+def apiCfg : ApiCfg := ApiCfg.ofFacts Nuts.Facts.C03.apiValidate Nuts.Facts.C03.apiStatusMap Nuts.Facts.C03.apiInvalidInputStatus
+
+def parseFld (s : String) : Fld :=
+  match s with
+  | "null" => .null | "empty" => .empty | "present" => .present | _ => .absent
+
+def parseApiReq (j : Json) : ApiReq :=
+  { flds := (jArr j "flds").map fun e => (jStr e "n", parseFld (jStr e "f")),
+    kid := jStr j "kid", headers := parseHeaders j, parseOk := jBool j "parseOk" }
+
+def showApi (r : ApiResp) : String :=
+  match r with
+  | .token k out =>
+    let kid := match hget out "kid" with | some (.str s) => s | some _ => "?" | none => "-"
+    let jwk := match hget out "jwk" with | some _ => "present" | none => "-"
+    let names := sortStrs ((out.map (·.1)).eraseDups)
+    s!"200 key=K{k} kid={kid} jwk={jwk} names=[{String.intercalate "," names}]"
+  | .plain k => s!"200 key=K{k}"
+  | .problem st d => s!"{st} detail=\"{d}\""
+  | .notApplicable w => "model-not-applicable:" ++ w
+
 def step (st : St) (j : Json) : St × List String :=
   let s := st.store
   match jStr j "op" with
@@ -170,6 +195,21 @@ def step (st : St) (j : Json) : St × List String :=
   | "jwkclass" =>
     let rt := jStr j "raw"
     (st, [s!"jwkclass {jStr j "id"} dpop-private={dpopJwkIsPrivate rt} didjwk={didJwkOutcome rt}"])
+  -- REST wrapper over the key store state
+  | "apikey" =>
+    let (s', r) := new s (jStr j "keyName") (some (jStr j "kid"))
+    ({ st with store := s' }, ["apikey " ++ (match r with
+      | .ok (kid, _, k) => s!"ok kid={kid} key=K{k}"
+      | .error e => s!"err:{e.name}")])
+  | "apilink" =>
+    let (s', r) := link s (jStr j "kid") (jStr j "keyName") (jStr j "version")
+    ({ st with store := s' }, ["apilink " ++ kres r (fun _ => "")])
+  | "apisignjwt" => (st, ["apisignjwt " ++ showApi (apiSignJwt validStr apiCfg "$KEYDIR" s (parseApiReq j))])
+  | "apisignjws" => (st, ["apisignjws " ++ showApi (apiSignJws validStr apiCfg "$KEYDIR" s (parseApiReq j))])
+  | "apidecrypt" =>
+    let m := if jStr j "msg" == "jwe" then JweMsg.jwe (jStr j "hkid") (jNat j "encFor") else JweMsg.garbage
+    (st, ["apidecrypt " ++ showApi (apiDecryptJwe validStr apiCfg "$KEYDIR" s (parseApiReq j) m)])
+  | "apiencval" => (st, ["apiencval " ++ showApi (apiEncryptValidate apiCfg (parseApiReq j))])
   | o => (st, ["bad-op:" ++ o])
 
 end Nuts.Drv.C03
